@@ -13,7 +13,7 @@ E1_ASSUMPTIONS = [
     "mirror: each Boolector call is forwarded to a real Boolector and mirrored into z3; every real Sat() verdict is cross-checked "
     "against z3 on the mirrored stack and the values read back are checked against the mirrored assertions (disagreement = harness error)",
     "runtime patch points (no source hooks): vsc.model.randomizer.Boolector, FieldScalarModel.build, "
-    "SolveGroupSwizzlerPartsel.swizzle, Randomizer.randomize",
+    "SolveGroupSwizzlerPartsel.swizzle, Randomizer.randomize, ConstraintDistScopeModel.next_target_range (records the installed selection list)",
 ]
 
 
